@@ -392,7 +392,12 @@ func Geteuid() int                                        { return os.Geteuid() 
 func Getgid() int                                         { return os.Getgid() }
 func Getgroups() ([]int, error)                           { return os.Getgroups() }
 func Getpagesize() int                                    { return os.Getpagesize() }
-func Getpid() int                                         { return os.Getpid() }
+func Getpid() int {
+	if env := simhook.CurProcEnv(); env != nil {
+		return env.Pid()
+	}
+	return os.Getpid()
+}
 func Getppid() int                                        { return os.Getppid() }
 func Getuid() int                                         { return os.Getuid() }
 func Getwd() (dir string, err error)                      { return os.Getwd() }
@@ -430,6 +435,12 @@ func (f *File) Name() string { return f.path }
 func (f *File) Fd() uintptr  { return f.f.Fd() }
 
 func (f *File) Read(b []byte) (int, error) {
+	if f != nil && f.std == 0 {
+		// the standard input of a simulated process is what its parent attached
+		if env := simhook.CurProcEnv(); env != nil {
+			return env.Stdin().Read(b)
+		}
+	}
 	n, err := f.fileOp(&simhook.FSOp{Kind: "read", Len: len(b)}, func() (int64, error) {
 		n, e := f.f.Read(b)
 		return int64(n), e
